@@ -43,6 +43,22 @@ REWRITES = [
     ('amr_kitchen/mandoline/utils.py',
      "    exp = np.repeat(arr, factor).reshape(arr.shape[0], \n                                         arr.shape[1]*factor)\n    exp = np.repeat(exp, factor, axis=0).reshape(arr.shape[0]*factor, \n                                                 arr.shape[1]*factor)\n    return exp",
      "    exp = np.repeat(arr, factor, axis=1)\n    exp = np.repeat(exp, factor, axis=0)\n    return exp"),
+    # colander: explicit pool life cycle, imap instead of map (both keep the order), explicit worker count
+    ('amr_kitchen/colander/colander.py',
+     "            with multiprocessing.Pool() as pool:\n                new_offsets = pool.map(self.strainer, mp_calls)",
+     "            pool = multiprocessing.Pool(processes=multiprocessing.cpu_count())\n            new_offsets = list(pool.imap(self.strainer, mp_calls))\n            pool.close()\n            pool.join()"),
+    # mandoline 3D: the same with a list comprehension in serial mode
+    ('amr_kitchen/mandoline/mandoline.py',
+     "                plane_data.append(list(map(slice_box, pool_inputs)))\n            else:\n                with multiprocessing.Pool() as pool:\n                    plane_data.append(pool.map(slice_box, pool_inputs))",
+     "                plane_data.append([slice_box(inp) for inp in pool_inputs])\n            else:\n                with multiprocessing.Pool() as pool:\n                    plane_data.append(list(pool.imap(slice_box, pool_inputs, chunksize=2)))"),
+    # pestle: accumulate with an explicit sum
+    ('amr_kitchen/pestle/pestle.py',
+     "    for box_int in tqdm(pool.imap(increment_sum,\n                                  mp_calls), total=len(mp_calls)):\n        integral += box_int",
+     "    integral = integral + sum(pool.map(increment_sum, mp_calls))"),
+    # utils: the FAB header assembled with format()
+    ('amr_kitchen/utils.py',
+     "    header_indices = (f\"((\" + ','.join([str(s) for s in start]) + ')'\n                      f\" (\" + ','.join([str(s) for s in stop]) + \")\"\n                      f\" (\" + ','.join([\"0\" for _ in stop]) + f\")) {nfields}\\n\")",
+     "    header_indices = '(({}) ({}) ({})) {}\\n'.format(','.join(str(s) for s in start), ','.join(str(s) for s in stop),\n                                                  ','.join('0' for _ in stop), nfields)"),
 ]
 
 
